@@ -34,6 +34,8 @@ func runC16(c *engine.Ctx) {
 	c16LockOrder(c, li, "R11")
 	c16RetryBound(c, "R12")
 	c16IndexBounds(c, "R13")
+	checkDroppedErrors(c, "R14", "*")
+	checkLostErrors(c, "R15", "*")
 }
 
 func isMutexType(t types.Type) bool {
